@@ -510,9 +510,53 @@ class Project:
             if isinstance(f, ast.Attribute) and f.attr == "copy" and not expr.args:
                 o = self._reg_value(f.value, env, func)
                 if o is not None and o[0] == "reg":
+                    self._reg_copy_checked(o, func, expr)
                     return ("regcopy", o)
             return None
         return None
+
+    def _reg_copy_checked(self, o, func, expr):
+        """`registry.copy()` must give an object with ITS OWN entries dictionary: the constructors merge the names of their class
+        into the copy, and a copy that shares the dictionary of the class-level registry (copy.copy(self), `return self`, a
+        constructor that keeps the dictionary it is given) makes every instance write into the one registry all models share"""
+        if getattr(self, "_reg_copy_ok", None) is not None:
+            if self._reg_copy_ok is not True:
+                raise self._reg_copy_ok
+            return
+        self._reg_copy_ok = True
+        rc = None
+        if o[1][0] == "class" or o[1] == ("self",):
+            owner = o[1][1] if o[1][0] == "class" else func.cls
+            c, e = self.class_attr(owner, o[2]) if owner is not None else (None, None)
+            if isinstance(e, ast.Call):
+                rc = self.resolve_class_expr(e.func, c.module)
+        if rc is None:
+            return
+        cp = self.resolve(rc, "copy")
+        init = self.resolve(rc, "__init__")
+        if cp is None:
+            return
+        sn = cp.params[0]
+        why = None
+        for r in [n for n in ast.walk(cp.node) if isinstance(n, ast.Return)]:
+            v = r.value
+            if isinstance(v, ast.Call) and self.resolve_class_expr(v.func, cp.module) is rc or (isinstance(v, ast.Call) and isinstance(v.func, ast.Call) and isinstance(v.func.func, ast.Name) and v.func.func.id == "type"):
+                # a new object from the constructor: which must copy the entries it is given
+                if init is not None and len(init.params) >= 2:
+                    kept = [n for n in ast.walk(init.node) if isinstance(n, ast.Assign) and any(isinstance(t, ast.Attribute) and isinstance(t.value, ast.Name) and t.value.id == init.params[0] for t in n.targets)
+                            and isinstance(n.value, ast.Name) and n.value.id == init.params[1]]
+                    if kept:
+                        why = "%s keeps the dictionary it is given (`%s`, line %d) and copy() hands it the original's" % (init.qualname, unparse(kept[0])[:40], kept[0].lineno)
+                continue
+            if isinstance(v, ast.Call) and isinstance(v.func, ast.Attribute) and v.func.attr == "deepcopy":
+                continue
+            why = "`%s` (line %d) is not a new registry with a dictionary of its own%s" % (unparse(r)[:50], r.lineno, ": a SHALLOW copy is another object holding the SAME `.dict`" if isinstance(v, ast.Call) and isinstance(v.func, ast.Attribute) and v.func.attr == "copy" else "")
+        if why:
+            e = AnalysisError("%s: %s" % (cp.qualname, why))
+            e.violation = ("REG-COPY", cp.qualname, "%s: the constructors of the models merge the names of their class into `registry.copy()` -- with a shared dictionary every instance writes into the one class-level registry, so a name is bound to the function of the model constructed LAST (nozzle 'massflow' without its section, euler2d 'mach' for a 1D model ...) and every model lists the other models' names" % why,
+                           "reg-copy-shares", {"C17", "C02", "C16", "C03", "C01", "C10", "C13", "C15", "C18", "C19"})
+            self._reg_copy_ok = e
+            raise e
 
     def _reg_attr(self, o, a, func):
         if o[0] in ("self", "class") and a in self._reg_names():
